@@ -38,7 +38,7 @@ func genBytes(t *rapid.T, label string) string {
 	case 3:
 		return rapid.String().Draw(t, label+"utf8")
 	default:
-		return gen.Pick(t, label+"kw", []string{"", "true", "false", "function", "class", "is", "a b", "1", "-1", "1e3", "#", "a:", "0x10"})
+		return gen.Pick(t, label+"kw", []string{"", "true", "false", "function", "class", "is", "a b", "1", "-1", "1e3", "#", "a:", "0x10", "?", "!", "_", "default", "_a", "a?"})
 	}
 }
 
@@ -46,12 +46,19 @@ func strValue(t *rapid.T, label string) core.Value {
 	return gen.StrAs(t, genBytes(t, label)).V
 }
 
+// sawExpMin is set when a decimal with the smallest exponent was drawn
+// (finding dnum-string-exp-min); reset per case by the property.
+var sawExpMin bool
+
 func scalarValue(t *rapid.T, label string) (v core.Value, inf bool) {
 	switch gen.Weighted(t, label+"k", []int{40, 25, 15, 10, 10}) {
 	case 0:
 		return strValue(t, label), false
 	case 1:
 		m := gen.NumMV().Draw(t, label+"num")
+		if d, ok := m.V.(core.SuDnum); ok && m.Inf == 0 && !d.IsZero() && d.Exp() == -128 {
+			sawExpMin = true
+		}
 		return m.V, m.Inf != 0
 	case 2:
 		return gen.DateMV().Draw(t, label+"date").V, false
@@ -70,6 +77,7 @@ type objInfo struct {
 	nested    bool
 	named     bool
 	nonStrKey bool
+	badKey    bool // member named "?", "!" or "_" (finding unquoted-key-not-identifier)
 }
 
 func containerValue(t *rapid.T, label string, depth int, info *objInfo) core.Value {
@@ -104,12 +112,19 @@ func containerValue(t *rapid.T, label string, depth int, info *objInfo) core.Val
 		l := fmt.Sprintf("%sn%d", label, i)
 		var k core.Value
 		if isRec || gen.Chance(t, l+"strkey", 70) {
-			k = core.SuStr(genBytes(t, l+"key"))
+			ks := genBytes(t, l+"key")
+			if ks == "?" || ks == "!" || ks == "_" {
+				info.badKey = true
+			}
+			k = core.SuStr(ks)
 		} else {
 			var inf bool
 			k, inf = scalarValue(t, l+"key")
 			info.hasInf = info.hasInf || inf
 			info.nonStrKey = true
+			if ks, ok := k.ToStr(); ok && (ks == "?" || ks == "!" || ks == "_") {
+				info.badKey = true
+			}
 			if d, ok := k.(core.SuDnum); ok {
 				if n, ok := d.Dnum.ToInt64(); ok && (n < -32768 || n > 32767) {
 					info.f3key = true
@@ -290,10 +305,13 @@ func TestC31(t *testing.T) {
 	defer rec.Write()
 
 	kfF3, kfF3ok := kf.Known("C31", "f3-dnum-key-hash")
+	kfKey, kfKeyOK := kf.Known("C31", "unquoted-key-not-identifier")
+	kfExp, kfExpOK := kf.Known("C31", "dnum-string-exp-min")
 
 	rt.Check(t, rec, "display", 20000, 500000, func(t *rapid.T) {
 		var v core.Value
 		var info objInfo
+		sawExpMin = false
 		kind := gen.Weighted(t, "kind", []int{40, 20, 10, 30})
 		switch kind {
 		case 0:
@@ -310,6 +328,18 @@ func TestC31(t *testing.T) {
 		if info.hasInf {
 			rec.Case(false, "inf")
 			rec.Label("excluded_inf_has_no_literal")
+			return
+		}
+		if sawExpMin && kfExpOK {
+			rec.Case(false, "expmin")
+			rec.Excluded("dnum-string-exp-min")
+			rec.Known(kfExp.What)
+			return
+		}
+		if info.badKey && kfKeyOK {
+			rec.Case(false, "badkey")
+			rec.Excluded("unquoted-key-not-identifier")
+			rec.Known(kfKey.What)
 			return
 		}
 		if info.f3key && kfF3ok {
